@@ -20,3 +20,13 @@ package consensus
 // The pillar reader handed to the VM is fixed at the given momentum (C02); creating it reads only.
 //@ func Consensus.FixedPillarReader(self, identifier)
 //@   modifies nothing
+
+// Property C05: a timestamp has a producer only if it is exactly the start of a slot of its tick's election, and the producer
+// is that slot's pillar - never the pillar of a neighbouring slot.
+//@ func electionManager.ElectionByTime(em, t) -> (e, err)
+//@   trusted
+//@   ensures err == nil ==> e != nil
+//@   modifies nothing
+//@ func consensus.GetMomentumProducer(cs, timestamp) -> (producer, err)
+//@   requires cs != nil
+//@   ensures-local[exactly-the-slot-that-starts-at-the-timestamp] err == nil ==> 0 <= rangeindex && rangeindex < len(election.Producers) && timenano(election.Producers[rangeindex].StartTime) == timenano(timestamp) && deref(producer) == election.Producers[rangeindex].Producer
